@@ -532,3 +532,194 @@ Proof.
     + simpl in Heq. injection Heq as -> ->. cbv zeta. simpl.
       apply (IH w (gstep g o') HG' Hw' HK' Hrest pre' batch post eq_refl q p t Hin).
 Qed.
+
+(** ** the full caller protocol on sliding-window caches: append where the sequence ends, clear, or - after CanResume
+    answered true for position [b] - truncate with Remove(seq, b, MaxInt32) and continue at [b] *)
+Definition ND (g : gstate) : Prop := forall q, NoDup (map fst (g_A g q)).
+
+Definition proto_op (g : gstate) (o : sop) : Prop :=
+  match o with
+  | SForward batch => contiguous_batch (g_A g) batch /\ forall q, NoDup (map fst (batch_of batch q))
+  | SRemove q b e => e = MaxInt32 /\ (b = 0 \/ spec_can_resume (g_s g) q b = true)
+  | SCanResume _ _ => True
+  | SCopy _ _ _ => False
+  end.
+
+Fixpoint proto_run (g : gstate) (ops : list sop) : Prop :=
+  match ops with
+  | [] => True
+  | o :: t => proto_op g o /\ sop_ok o /\ proto_run (gstep g o) t
+  end.
+
+Lemma top_max : forall l x, In x l -> fst x <= top l.
+Proof.
+  intros l x H. unfold top. induction l as [|y r IH]; simpl in *; [contradiction|].
+  destruct H as [->|H]; [lia|]. specialize (IH H). lia.
+Qed.
+
+Lemma NoDup_app_inv : forall A (l l' : list A), NoDup (l ++ l') -> NoDup l /\ NoDup l' /\ forall x, In x l -> ~ In x l'.
+Proof.
+  intros A l l'. induction l as [|a r IH]; simpl; intros H.
+  - split; [constructor|]. split; [exact H|]. intros x [].
+  - inversion H as [|? ? Hn Hr]; subst. destruct (IH Hr) as [I1 [I2 I3]]. split; [|split; [exact I2|]].
+    + constructor; [|exact I1]. intros C. apply Hn. apply in_or_app. left. exact C.
+    + intros x [->|Hx]; [intros C; apply Hn; apply in_or_app; right; exact C|apply I3; exact Hx].
+Qed.
+
+Lemma NoDup_app_intro : forall A (l l' : list A), NoDup l -> NoDup l' -> (forall x, In x l -> ~ In x l') -> NoDup (l ++ l').
+Proof.
+  intros A l l' H1 H2 Hd. induction H1 as [|a r Hn Hr IH]; simpl; auto.
+  constructor.
+  - intros C. apply in_app_or in C. destruct C as [C|C]; [contradiction|]. apply (Hd a); [left; reflexivity|exact C].
+  - apply IH. intros x Hx. apply Hd. right. exact Hx.
+Qed.
+
+Lemma batch_of_in : forall batch q x, In x (batch_of batch q) -> exists t, In (q, fst x, t) batch.
+Proof.
+  intros batch q x H. unfold batch_of in H. apply in_map_iff in H. destruct H as [[[q' p] t] [<- He]].
+  apply filter_In in He. destruct He as [He Hq]. simpl in Hq. apply Nat.eqb_eq in Hq. subst q'. exists t. exact He.
+Qed.
+
+Lemma remove_max_spec : forall s q b, pos_ok s ->
+  spec_remove s q b MaxInt32 = (with_cells s (prune (map (rm_cell q b MaxInt32) (s_cells s))), None).
+Proof.
+  intros s q b Hp. unfold spec_remove.
+  assert (Hb : existsb (rm_blocked q b MaxInt32) (s_cells s) = false).
+  { unfold pos_ok in Hp. induction Hp as [|a r Ha Hr IH]; simpl; auto. rewrite IH, orb_false_r.
+    unfold rm_blocked. destruct (Z.leb_spec MaxInt32 (a_pos a)); [lia|]. rewrite andb_false_r. reflexivity. }
+  rewrite Hb. destruct (negb _); [reflexivity|]. rewrite Z.eqb_refl. reflexivity.
+Qed.
+
+Lemma rm_list_max : forall b l, (forall x, In x l -> fst x < MaxInt32) -> rm_list b MaxInt32 l = filter (fun x => fst x <? b) l.
+Proof.
+  intros b l H. unfold rm_list. rewrite (filter_nil_all _ (fun x => MaxInt32 <=? fst x) l); [simpl; apply app_nil_r|].
+  intros x Hx. specialize (H x Hx). destruct (Z.leb_spec MaxInt32 (fst x)); [lia|reflexivity].
+Qed.
+
+(** CanResume at the level of the per-sequence history: every position of [lo, b) is held *)
+Lemma count_pos_hist : forall s q lo hi,
+  count_pos s q lo hi = Z.of_nat (length (filter (fun x => (lo <=? fst x) && (fst x <? hi)) (hist_raw s q))).
+Proof.
+  intros. unfold count_pos, hist_raw. f_equal. induction (s_cells s) as [|a r IH]; simpl; auto.
+  destruct (has q a); simpl; [|exact IH]. change (fst (pt a)) with (a_pos a).
+  destruct ((lo <=? a_pos a) && (a_pos a <? hi)); simpl; rewrite IH; reflexivity.
+Qed.
+
+Fixpoint zrange (lo : Z) (n : nat) : list Z := match n with O => [] | S k => lo :: zrange (lo + 1) k end.
+
+Lemma zrange_in : forall n lo x, In x (zrange lo n) <-> lo <= x < lo + Z.of_nat n.
+Proof. induction n as [|n IH]; intros lo x; simpl; [split; [tauto|lia]|]. rewrite IH. lia. Qed.
+
+Lemma zrange_length : forall n lo, length (zrange lo n) = n.
+Proof. induction n; intros; simpl; auto. Qed.
+
+Lemma map_fst_filter_pos : forall (P : Z -> bool) (l : list (Z * N)),
+  map fst (filter (fun x => P (fst x)) l) = filter P (map fst l).
+Proof. intros. induction l as [|a t IH]; simpl; auto. destruct (P (fst a)); simpl; rewrite IH; reflexivity. Qed.
+
+(** pigeonhole: as many distinct positions in [lo, b) as the interval is long - every position is there *)
+Lemma all_present : forall (H : list (Z * N)) lo b, NoDup (map fst H) -> lo <= b ->
+  Z.of_nat (length (filter (fun x => (lo <=? fst x) && (fst x <? b)) H)) = b - lo ->
+  forall y, lo <= y < b -> exists x, In x H /\ fst x = y.
+Proof.
+  intros H lo b Hnd Hle Hc y Hy.
+  set (L := map fst (filter (fun x => (lo <=? fst x) && (fst x <? b)) H)).
+  assert (HL : length L = Z.to_nat (b - lo)) by (unfold L; rewrite map_length; lia).
+  assert (HN : NoDup L).
+  { unfold L. rewrite (map_fst_filter_pos (fun z => (lo <=? z) && (z <? b))). apply NoDup_filter. exact Hnd. }
+  assert (Hincl : incl L (zrange lo (Z.to_nat (b - lo)))).
+  { intros z Hz. unfold L in Hz. apply in_map_iff in Hz. destruct Hz as [x [<- Hx]]. apply filter_In in Hx.
+    destruct Hx as [_ Hc']. apply andb_true_iff in Hc'. destruct Hc' as [H1 H2]. apply Z.leb_le in H1. apply Z.ltb_lt in H2.
+    apply zrange_in. lia. }
+  assert (Hback : incl (zrange lo (Z.to_nat (b - lo))) L).
+  { apply NoDup_length_incl; [exact HN| |exact Hincl]. rewrite zrange_length, HL. lia. }
+  assert (Hin : In y L) by (apply Hback; apply zrange_in; lia).
+  unfold L in Hin. apply in_map_iff in Hin. destruct Hin as [x [Hx Hf]]. apply filter_In in Hf. exists x. tauto.
+Qed.
+
+Theorem proto_step : forall w g o, GI g -> s_window (g_s g) = Some w -> 0 <= w -> KI w g -> ND g -> proto_op g o -> sop_ok o ->
+  KI w (gstep g o) /\ ND (gstep g o) /\
+  match o with
+  | SForward batch => forall q p t, In (q, p, t) batch -> filter (inw (Some w) p) (g_M (gstep g o) q) = []
+  | _ => True
+  end.
+Proof.
+  intros w g o HG Hw Hw0 HK HN Hop Hok. destruct o as [batch|src dst len|q b e|q p]; simpl in Hop.
+  - (* forward *)
+    destruct Hop as [Hc Hnb]. destruct (append_step w g (SForward batch) HG Hw HK Hc) as [HK' HT].
+    split; [exact HK'|]. split; [|exact HT].
+    intros q. simpl. destruct (spec_forward (g_s g) batch) as [s' [er|]]; simpl; [apply HN|].
+    unfold a_forward. rewrite map_app. apply NoDup_app_intro; [apply HN|apply Hnb|].
+    intros z Hz Hz'. apply in_map_iff in Hz. destruct Hz as [x [<- Hx]]. apply in_map_iff in Hz'. destruct Hz' as [y [Hy Hyb]].
+    destruct (batch_of_in _ _ _ Hyb) as [t Hin]. destruct (lowest_in _ _ _ _ Hin) as [L HL].
+    pose proof (lowest_le _ _ _ _ _ HL Hin). rewrite (Hc q L HL) in H. pose proof (top_max _ _ Hx). lia.
+  - contradiction.
+  - (* Remove(q, b, MaxInt32): clear, or truncate after CanResume *)
+    destruct Hop as [-> Hres]. simpl in Hok. split; [|split; [|exact I]].
+    + (* KI *)
+      simpl. unfold spec_remove_c. rewrite (remove_max_spec _ q b (gi_pos g HG)). simpl.
+      intros q' x. cbn [g_A g_M]. unfold a_remove, upd. destruct (Nat.eqb_spec q' q) as [->|Hne]; [|apply HK].
+      assert (HMv : forall y, In y (g_M g q) -> fst y < MaxInt32) by (intros y Hy; destruct (HK q y Hy); lia).
+      assert (HAv : forall y, In y (g_A g q) -> fst y < MaxInt32).
+      { intros y Hy. apply (Permutation_in _ (Permutation_sym (gi_perm g HG q))) in Hy. apply in_app_or in Hy.
+        destruct Hy as [Hy|Hy]; [destruct (hist_raw_pos _ _ _ (gi_pos g HG) Hy); lia|apply HMv; exact Hy]. }
+      rewrite (rm_list_max b _ HMv), (rm_list_max b _ HAv). intros Hx. apply filter_In in Hx. destruct Hx as [Hx Hlt].
+      apply Z.ltb_lt in Hlt. destruct (HK q x Hx) as [K1 K2]. split; [exact K1|].
+      destruct Hres as [->|Hcr]; [lia|].
+      (* the positions the resumed window needs are all held *)
+      unfold spec_can_resume in Hcr. rewrite Hw in Hcr.
+      destruct (last_pos (g_s g) q =? -1); [discriminate|]. apply andb_true_iff in Hcr. destruct Hcr as [_ Hcnt].
+      apply Z.eqb_eq in Hcnt. rewrite count_pos_hist in Hcnt.
+      set (lo := Z.max 0 (b - w)) in *.
+      pose proof (Permutation_NoDup (Permutation_map fst (Permutation_sym (gi_perm g HG q))) (HN q)) as HNA.
+      rewrite map_app in HNA. destruct (NoDup_app_inv _ _ _ HNA) as [HNB [_ Hdisj]].
+      assert (Hlob : lo <= b) by lia.
+      pose proof (all_present (hist_raw (g_s g) q) lo b HNB Hlob Hcnt) as Hall.
+      assert (Hxlo : fst x < lo).
+      { destruct (Z.lt_ge_cases (fst x) lo); auto. exfalso. destruct (Hall (fst x) ltac:(lia)) as [y [Hy Hyf]].
+        apply (Hdisj (fst x)); [rewrite <- Hyf; apply in_map; exact Hy|apply in_map; exact Hx]. }
+      destruct (Z.le_gt_cases (b - w) 0) as [Hc0|Hc0]; [lia|].
+      destruct (Z.eq_dec w 0) as [->|Hwn].
+      * (* window 0 *)
+        assert (Hin : In x (filter (fun y => fst y <? b) (g_A g q))).
+        { apply filter_In. split; [|apply Z.ltb_lt; exact Hlt].
+          apply (Permutation_in _ (gi_perm g HG q)). apply in_or_app. right. exact Hx. }
+        pose proof (top_max _ _ Hin). lia.
+      * destruct (Hall (b - 1) ltac:(lia)) as [y [Hy Hyf]].
+        assert (Hin : In y (filter (fun z => fst z <? b) (g_A g q))).
+        { apply filter_In. split; [|apply Z.ltb_lt; lia].
+          apply (Permutation_in _ (gi_perm g HG q)). apply in_or_app. left. exact Hy. }
+        pose proof (top_max _ _ Hin). lia.
+    + (* ND *)
+      intros q'. simpl. unfold spec_remove_c. rewrite (remove_max_spec _ q b (gi_pos g HG)). simpl.
+      unfold a_remove, upd. destruct (Nat.eqb q' q); [|apply HN].
+      unfold rm_list. rewrite map_app, map_map. simpl.
+      assert (HAv : forall y, In y (g_A g q) -> fst y < MaxInt32).
+      { intros y Hy. apply (Permutation_in _ (Permutation_sym (gi_perm g HG q))) in Hy. apply in_app_or in Hy.
+        destruct Hy as [Hy|Hy]; [destruct (hist_raw_pos _ _ _ (gi_pos g HG) Hy); lia|destruct (HK q y Hy); lia]. }
+      rewrite (filter_nil_all _ (fun x => MaxInt32 <=? fst x) (g_A g q)).
+      * simpl. rewrite app_nil_r. rewrite (map_fst_filter_pos (fun z => z <? b)). apply NoDup_filter. apply HN.
+      * intros y Hy. specialize (HAv y Hy). destruct (Z.leb_spec MaxInt32 (fst y)); [lia|reflexivity].
+  - split; [exact HK|]. split; [exact HN|exact I].
+Qed.
+
+Theorem proto_run_complete : forall ops w g, GI g -> s_window (g_s g) = Some w -> 0 <= w -> KI w g -> ND g -> proto_run g ops ->
+  forall pre batch post, ops = pre ++ SForward batch :: post ->
+  forall q p t, In (q, p, t) batch ->
+  let g' := grun g (pre ++ [SForward batch]) in
+  Permutation (filter (inw (Some w) p) (g_A g' q)) (visible_raw (g_s g') q p).
+Proof.
+  induction ops as [|o rest IH]; intros w g HG Hw Hw0 HK HN Hrun pre batch post Heq q p t Hin.
+  - destruct pre; discriminate.
+  - simpl in Hrun. destruct Hrun as [Hop [Hok Hrest]].
+    destruct (proto_step w g o HG Hw Hw0 HK HN Hop Hok) as [HK' [HN' Htok]].
+    assert (HG' : GI (gstep g o)) by (apply gstep_inv; assumption).
+    assert (Hw' : s_window (g_s (gstep g o)) = Some w).
+    { pose proof (window_grun [o] g) as H. simpl in H. rewrite H. exact Hw. }
+    destruct pre as [|o' pre'].
+    + simpl in Heq. injection Heq as -> ->. cbv zeta. simpl.
+      pose proof (proj1 (complete_iff (gstep g (SForward batch)) q p HG')) as Hc. rewrite Hw' in Hc.
+      apply Hc. apply (Htok q p t Hin).
+    + simpl in Heq. injection Heq as -> ->. cbv zeta. simpl.
+      apply (IH w (gstep g o') HG' Hw' Hw0 HK' HN' Hrest pre' batch post eq_refl q p t Hin).
+Qed.
